@@ -193,6 +193,7 @@ def run(ctx):
     if ctx.prop == "C11" and not getattr(ctx, "_sharing", False):
         from .common import share
         share(ctx, "C19", ("R19.1",), "R11.8", "env::get obligations shared with C19", 4)
+        share(ctx, "C03", ("R03.11",), "R11.8", "who-may-consult-the-environment obligations shared with C03 (a toggle given on the command line is not judged by its variable)", 4)
         share(ctx, "C14", ("R14.2", "R14.3"), "R11.8", "reset-pass obligations shared with C14 (whatever check() stores - a count, a remembered environment word - is emptied by prepare())", 4)
         ctx.rule("R11.9", "an unparsable environment word is a catchable parsing_error (R04.7: nothing noexcept on the way) and a token that spells the toggle's letter is offered to it (R12.1: only dash-less tokens are values)")
         share(ctx, "C04", ("R04.7", "R04.13"), "R11.9", "noexcept / handler obligations shared with C04", 10)
